@@ -13,6 +13,8 @@ import (
 	sdkmath "cosmossdk.io/math"
 	storetypes "cosmossdk.io/store/types"
 	sdk "github.com/cosmos/cosmos-sdk/types"
+	authtypes "github.com/cosmos/cosmos-sdk/x/auth/types"
+	vestingtypes "github.com/cosmos/cosmos-sdk/x/auth/vesting/types"
 	distkeeper "github.com/cosmos/cosmos-sdk/x/distribution/keeper"
 	disttypes "github.com/cosmos/cosmos-sdk/x/distribution/types"
 	minttypes "github.com/cosmos/cosmos-sdk/x/mint/types"
@@ -209,6 +211,16 @@ func TestEngineStaking(t *testing.T) {
 		mint(base, addrs[i].Bytes(), new(big.Int).Mul(one, big.NewInt(30)))
 	}
 	mint(base, addrs[8].Bytes(), new(big.Int).Mul(one, big.NewInt(50)))
+	{ // a delayed-vesting account whose bond coins are mostly still locked: only ever looked at (views): its bank balance
+		// and its spendable amount differ
+		addrs[9] = common.HexToAddress("0x00000000000000000000000000000000009e5719")
+		baseAcc := c.s.ChainApp.AccountKeeper().NewAccountWithAddress(base, addrs[9].Bytes())
+		locked := new(big.Int).Mul(one, big.NewInt(7))
+		bva, err := vestingtypes.NewBaseVestingAccount(baseAcc.(*authtypes.BaseAccount), sdk.NewCoins(sdk.NewCoin(bond, sdkmath.NewIntFromBigInt(locked))), base.BlockTime().Add(100000*time.Hour).Unix())
+		require.NoError(t, err)
+		c.s.ChainApp.AccountKeeper().SetAccount(base, vestingtypes.NewDelayedVestingAccountRaw(bva))
+		mint(base, addrs[9].Bytes(), new(big.Int).Add(locked, big.NewInt(12345)))
+	}
 	vals, err := sk.GetAllValidators(base)
 	require.NoError(t, err)
 	sort.Slice(vals, func(i, j int) bool { return vals[i].OperatorAddress < vals[j].OperatorAddress })
@@ -665,7 +677,7 @@ func TestEngineStaking(t *testing.T) {
 	}
 
 	checkViews := func() {
-		who := hx.Pick(r, []int{1, 2, 3, 5, 6})
+		who := hx.Pick(r, []int{1, 2, 3, 5, 6, 9})
 		v := pickVal()
 		before := dumpStores(base, keys, allStores)
 		type view struct {
